@@ -539,7 +539,7 @@ func crossSchemeHistory(seed uint64, out []map[string]string, first int) {
 // ---------------------------------------------------------------------------------------------
 // parent
 
-var raceFrame = regexp.MustCompile(`^\s+([^\s(]+)\(`)
+var raceFrame = regexp.MustCompile(`^\s+(\S+)\(\)\s*$`)
 
 func parseRaceLogs(glob string) (reports int, dedup map[string]string) {
 	dedup = map[string]string{}
